@@ -90,7 +90,7 @@ package rm
 //@   ensures result != nil
 
 //@ func (*RMRemoting).BranchRegister
-//@   prop C05 C02
+//@   prop C05 C02 C19
 //@   modifies ghost.begin_sends, ghost.commit_sends, ghost.rollback_sends, ghost.other_sends, ghost.commit_acked, ghost.commit_refused, ghost.rollback_acked, ghost.rollback_refused, ghost.last_send_failed, ghost.commit_xid, ghost.rollback_xid, ghost.begin_xid
 //@   ensures one-request: ghost.other_sends == old(ghost.other_sends) + 1 && ghost.begin_sends == old(ghost.begin_sends) && ghost.commit_sends == old(ghost.commit_sends) && ghost.rollback_sends == old(ghost.rollback_sends)
 //@   ensures transport-failure-surfaces: ghost.last_send_failed ==> result1 != nil
